@@ -316,6 +316,10 @@ Definition put_delivery (d : dstore_t) (now : Q) (mid : Z) (m : smsg) (eid : Z) 
 (* the stored SubmitSm is a part of a segmented message: 0 < total_segments <= 255 *)
 Definition is_segment (m : smsg) : bool := (0 <? snd (sm_sar m)) && (snd (sm_sar m) <=? 255).
 
+(* the receipt text may carry any integer as 'err'; values outside the range of error codes would be taken for the internal status
+   markers (STATUS_SENT .. STATUS_SENDING) and are booked as DLR_ERROR_OTHER_ERROR *)
+Definition receipt_code (e : Z) : Z := if (0 <=? e) && (e <? STATUS_SENT) then e else DLR_ERROR_OTHER_ERROR.
+
 (* get_delivery(receipt), without the sweep *)
 Definition get_delivery (c : corr) (d : dstore_t) (r : receipt) : corr * dstore_t * option smsg :=
   match dget (rc_id r) d with
@@ -327,8 +331,9 @@ Definition get_delivery (c : corr) (d : dstore_t) (r : receipt) : corr * dstore_
     | Some (ref, sseq) =>
       match dget ref (c_stat c) with
       | Some ss =>
-        let ss1 := set_status ss sseq (rc_err r) in
-        let ss2 := if (0 <? rc_err r) || match ss_last_rcpt ss1 with None => true | Some _ => false end
+        let code := receipt_code (rc_err r) in
+        let ss1 := set_status ss sseq code in
+        let ss2 := if (0 <? code) || match ss_last_rcpt ss1 with None => true | Some _ => false end
                    then set_last_rcpt ss1 (rc_uid r) else ss1 in
         (with_stat c (dset (c_stat c) ref ss2), d', Some m)
       | None => (c, d', Some m)
